@@ -13,6 +13,7 @@ struct Case {
     int   position{0}; // 0 direct, 1 {var:}, 2 {raw:}, 3 loop key, 4 svar phrase + sub tags, 5 echoed source of an unresolved tag
     int   width{1};
     Units str;         // the string (code units of the width)
+    int   delivery{0}; // positions 1/2: 0 plain string member, 1 pointer to a value, 2 pointer to a pointer, 3 loop over an array of pointers
 };
 
 const Units &entity(int i) {
@@ -129,8 +130,21 @@ void run_width(const Case &c, pbt::Ctx &ctx) {
         case 2: {
             Value<Char_T> v;
             jm::Buf<Char_T> kb(ascii("k\0"));
-            v[StringView<Char_T>{kb.cp(), 1}] = mk<Char_T>(s);
-            Units out = render<Char_T>(cat({ascii("A<"), ascii(c.position == 1 ? "{var:k}" : "{raw:k}"), ascii(">B")}), v);
+            // the string may reach the tag through pointer-to-value members (they outlive the render)
+            Value<Char_T> target{mk<Char_T>(s)};
+            Value<Char_T> hop;
+            hop.SetPointerToValue(&target);
+            const char *tag = (c.position == 1) ? "{var:k}" : "{raw:k}";
+            switch (c.delivery) {
+                case 1: v[StringView<Char_T>{kb.cp(), 1}].SetPointerToValue(&target); break;
+                case 2: v[StringView<Char_T>{kb.cp(), 1}].SetPointerToValue(&hop); break;
+                case 3:
+                    v[StringView<Char_T>{kb.cp(), 1}].AddPointerToValue(&hop);
+                    tag = (c.position == 1) ? "<loop set=\"k\" value=\"it\">{var:it}</loop>" : "<loop set=\"k\" value=\"it\">{raw:it}</loop>";
+                    break;
+                default: v[StringView<Char_T>{kb.cp(), 1}] = mk<Char_T>(s); break;
+            }
+            Units out = render<Char_T>(cat({ascii("A<"), ascii(tag), ascii(">B")}), v);
             Units seg;
             if (!cut(out, ascii("A<"), ascii(">B"), seg)) {
                 ctx.fail("surrounding-text-changed", "text around the tag was not copied unchanged: " + jm::show(out));
@@ -275,6 +289,7 @@ struct H {
                             Entropy e(std::get<0>(t));
                             c.position = std::get<1>(t);
                             c.width    = std::get<2>(t);
+                            c.delivery = int(e.below(4));
                             c.str      = gen_string(e, c.width == 3 ? 4 : c.width);
                             if (c.position != 0) { // strings travel through NUL-safe APIs, but keep template positions NUL-free
                                 for (auto &x : c.str) {
@@ -291,6 +306,7 @@ struct H {
         kv.put("position", c.position);
         kv.put("width", c.width);
         kv.put("str", pbt::enc_units(c.str));
+        kv.put("delivery", c.delivery);
         return kv.text();
     }
     static Case from_text(const std::string &t) {
@@ -299,11 +315,16 @@ struct H {
         c.position = int(kv.geti("position"));
         c.width    = int(kv.geti("width", 1));
         c.str      = pbt::dec_units(kv.get("str"));
+        c.delivery = int(kv.geti("delivery"));
         return c;
     }
     static void run(const Case &c, pbt::Ctx &ctx) {
         static const char *pn[] = {"direct", "var-tag", "raw-tag", "loop-key", "svar", "unresolved-echo"};
         ctx.label(std::string("position:") + pn[c.position]);
+        if (c.position == 1 || c.position == 2) {
+            static const char *dn[] = {"plain", "pointer", "pointer-to-pointer", "loop-over-array-of-pointers"};
+            ctx.label(std::string("delivery:") + dn[c.delivery & 3]);
+        }
         bool special = false;
         for (uint32_t x : c.str) {
             special = special || x == '&' || x == '<' || x == '>' || x == '"' || x == '\'';
